@@ -291,6 +291,7 @@ func setupCdp(w *World) {
 		w.Fund(w.Actors[i].Addr, sdk.NewCoins(sdk.NewCoin(p.Debt.Denom, p.Debt.Decimals.MulRaw(r.Range(1000, 1000000)))))
 	}
 	setupLiqV2(w, r)
+	setupV1(w, r)
 	setupAux(w, r)
 	setupEsm(w, r)
 	w.touchModuleAccounts()
